@@ -52,6 +52,12 @@ func init() {
 			Run: func(P *Program, R *Report) { workerPoolRule(P, R) }},
 		Rule{ID: "C20.e", Explain: "goroutine protocol of GenerateConcurrent (C16.d).",
 			Run: func(P *Program, R *Report) { goroutineProtocolRule(P, R, "C20.e") }},
+		Rule{ID: "C20.l", Explain: "package-level mutable state: in the concurrent call tree a package-level variable is a value shared by every goroutine of the process. Each use of one that can change it - a store to it or through it, a method called on it or on the object it holds (a hash state, a math/rand generator, a buffer), its address or the object handed to a call - is under a held mutex or inside sync.Once, unless the variable's type synchronises itself (sync.*, atomic.*, the process-wide CPRNG, whose discipline is C20.c) or the variable is a tabled configuration hook or read-only table. A scratch object or generator hoisted from a function to package level (to save an allocation) makes concurrent provers and verifiers compute on each other's data.",
+			Run: func(P *Program, R *Report) { packageStateRule(P, R, "C20.l", concurrentEntries, 1) }},
+		Rule{ID: "C20.n", Explain: "pooled and copied state: (1) an object handed back to a sync.Pool (also by a deferred Put) is not a result of the function - a returned object that is in the pool is overwritten by whoever takes it next, so concurrent signers and verifiers compute on each other's numbers; (2) the state of the process-wide generator (common.CPRNG: key schedule and block counter) is never copied by value - a method with a value receiver, a dereference - because a copy replays the keystream of the original.",
+			Run: func(P *Program, R *Report) { pooledAndCopiedRule(P, R, "C20.n") }},
+		Rule{ID: "C20.m", Explain: "64-bit atomics on 32-bit platforms: a field that is the operand of a 64-bit sync/atomic function is 8-byte aligned in its struct under the 386/arm layout (offset computed with the gc sizes for 386); otherwise every such operation panics there ('unaligned 64-bit atomic operation') and the process-wide generator is unusable.",
+			Run: func(P *Program, R *Report) { atomicAlignmentRule(P, R, "C20.m") }},
 		Rule{ID: "C20.g", Explain: "package-level big.Int constants (bigONE, bigZERO, two, ...) are only read: never the receiver of a mutating method, never returned to a caller, never stored into a structure - an escaped constant is modified by its new owner's next in-place operation and corrupts every later computation of the process.",
 			Run: func(P *Program, R *Report) { sharedConstantsRule(P, R, "C20.g") }},
 		Rule{ID: "C20.h", Explain: "lazily initialised fields: a field that is assigned inside a function run by sync.Once.Do is read only after the same Once.Do in the reading function (the accessor pattern); a direct read elsewhere races with the first initialisation.",
@@ -839,4 +845,271 @@ func isBigIntValueAddr(v ssa.Value) bool {
 	}
 	n, ok := p.Elem().(*types.Named)
 	return ok && n.Obj().Name() == "Int" && n.Obj().Pkg() != nil && strings.HasSuffix(n.Obj().Pkg().Path(), "big")
+}
+
+// selfSynchronised: types whose methods may be called from several goroutines at once.
+func selfSynchronised(t types.Type) bool {
+	ts := types.TypeString(t, nil)
+	ts = strings.TrimPrefix(ts, "*")
+	return strings.HasPrefix(ts, "sync.") || strings.HasPrefix(ts, "sync/atomic.") || strings.HasSuffix(ts, "internal/common.CPRNG")
+}
+
+// readOnlyGlobals: package-level values the concurrent call tree only reads through calls (tabled with reason).
+var readOnlyGlobals = map[string]string{
+	"crypto/rand.Reader": "the system generator is safe for concurrent use (documented)",
+}
+
+// packageStateRule: see C20.l.
+func packageStateRule(P *Program, R *Report, rule string, entries []string, floor int) {
+	var roots []*ssa.Function
+	for _, k := range entries {
+		if f := mustFunc(P, R, rule, k); f != nil {
+			roots = append(roots, f)
+		}
+	}
+	type res struct {
+		ok  bool
+		why []string
+		pos string
+	}
+	out := map[string]*res{}
+	nGlobals := map[string]bool{}
+	for _, fn := range P.reachableFuncs(roots...) {
+		if fn.Blocks == nil || !inModuleFn(fn) || fn.Name() == "init" || strings.HasPrefix(fn.Name(), "init#") {
+			continue
+		}
+		allInstrs(fn, func(i ssa.Instruction) {
+			for _, op := range i.Operands(nil) {
+				g, ok := (*op).(*ssa.Global)
+				if !ok || g.Pkg == nil || !inModule(g.Pkg.Pkg) {
+					continue
+				}
+				name := shortPkg(g.Pkg.Pkg.Path()) + "." + g.Name()
+				elem := g.Type().(*types.Pointer).Elem()
+				if selfSynchronised(elem) || configGlobals[name] != "" || isBigIntPtr(elem) || strings.HasPrefix(g.Name(), "init$") {
+					continue // big.Int constants: C20.g
+				}
+				nGlobals[name] = true
+				var bad []string
+				note := func(u ssa.Instruction, what string) {
+					if ok, _ := synchronised(P, fn, u); !ok {
+						bad = append(bad, what+" at "+P.Pos(u.Pos()))
+					}
+				}
+				var follow func(v ssa.Value, viaLoad bool, depth int)
+				var visit func(u ssa.Instruction, v ssa.Value, viaLoad bool, depth int)
+				follow = func(v ssa.Value, viaLoad bool, depth int) {
+					if depth > 4 {
+						return
+					}
+					for _, u := range referrersOf(v) {
+						visit(u, v, viaLoad, depth)
+					}
+				}
+				visit = func(u ssa.Instruction, v ssa.Value, viaLoad bool, depth int) {
+					{
+						switch u := u.(type) {
+						case *ssa.Store:
+							if u.Addr == v {
+								note(u, "store")
+							} else if !viaLoad {
+								note(u, "address stored")
+							}
+						case *ssa.UnOp:
+							if u.Op == token.MUL {
+								// loading the variable: a pointer, interface, map, slice or channel it holds is the shared object
+								switch u.Type().Underlying().(type) {
+								case *types.Pointer, *types.Interface, *types.Map, *types.Slice:
+									if !selfSynchronised(u.Type()) && !isBigIntPtr(u.Type()) {
+										follow(u, true, depth+1)
+									}
+								}
+							}
+						case *ssa.FieldAddr, *ssa.IndexAddr:
+							follow(u.(ssa.Value), viaLoad, depth+1)
+						case *ssa.MapUpdate:
+							if u.Map == v {
+								note(u, "map update")
+							}
+						case ssa.CallInstruction:
+							cc := u.Common()
+							if cc.IsInvoke() && cc.Value == v {
+								note(u, "method "+cc.Method.Name()+" called on the shared object")
+								return
+							}
+							if callee := staticCallee(u); callee != nil && callee.Signature.Recv() != nil && len(cc.Args) > 0 && cc.Args[0] == v {
+								if _, ptr := callee.Signature.Recv().Type().(*types.Pointer); ptr {
+									if inModuleFn(callee) && callee.Blocks != nil && len(receiverStores(callee)) == 0 {
+										return // a method of the module that does not write its receiver
+									}
+									note(u, "method "+callee.Name()+" called on the shared object")
+								}
+								return
+							}
+							switch v.Type().Underlying().(type) {
+							case *types.Pointer, *types.Interface, *types.Map:
+								if b, isB := cc.Value.(*ssa.Builtin); isB && (b.Name() == "len" || b.Name() == "cap") {
+									return
+								}
+								note(u, "handed to "+calleeName(u))
+							}
+						}
+					}
+				}
+				visit(i, g, false, 0)
+				key := name
+				r := out[key]
+				if r == nil {
+					r = &res{ok: true, pos: P.Pos(i.Pos())}
+					out[key] = r
+				}
+				if len(bad) > 0 {
+					r.ok = false
+					r.why = append(r.why, FuncKey(fn)+": "+strings.Join(bad, "; "))
+				}
+			}
+		})
+	}
+	for k, r := range out {
+		sort.Strings(r.why)
+		R.decide(rule, "global:"+k, "the package-level variable is only read in the concurrent call tree, or every use that can change it is under a lock", r.ok, strings.Join(dedupStrings(r.why), "\n"), r.pos)
+	}
+	R.decide(rule, "globals:count", fmt.Sprintf("package-level variables used in the concurrent call tree were found (>= %d)", floor), len(nGlobals) >= floor, fmt.Sprintf("%d", len(nGlobals)), "")
+}
+
+func dedupStrings(in []string) []string {
+	seen := map[string]bool{}
+	var out []string
+	for _, s := range in {
+		if !seen[s] {
+			seen[s] = true
+			out = append(out, s)
+		}
+	}
+	return out
+}
+
+// atomicAlignmentRule: see C20.m.
+func atomicAlignmentRule(P *Program, R *Report, rule string) {
+	sizes := types.SizesFor("gc", "386")
+	n := 0
+	for _, fn := range P.AllFuncs {
+		if fn.Blocks == nil || !inModuleFn(fn) {
+			continue
+		}
+		for _, ci := range callsIn(fn) {
+			name := calleeName(ci)
+			if !strings.HasPrefix(name, "sync/atomic.") || !(strings.HasSuffix(name, "Int64") || strings.HasSuffix(name, "Uint64")) {
+				continue
+			}
+			args := ci.Common().Args
+			if len(args) == 0 {
+				continue
+			}
+			// offset of the operand within the outermost allocated struct
+			off, okOff, path := int64(0), true, ""
+			v := args[0]
+			for {
+				fa, isFA := v.(*ssa.FieldAddr)
+				if !isFA {
+					break
+				}
+				st := fa.X.Type().(*types.Pointer).Elem().Underlying().(*types.Struct)
+				var fields []*types.Var
+				for k := 0; k < st.NumFields(); k++ {
+					fields = append(fields, st.Field(k))
+				}
+				off += sizes.Offsetsof(fields)[fa.Field]
+				path = "." + st.Field(fa.Field).Name() + path
+				v = fa.X
+			}
+			if _, isFA := args[0].(*ssa.FieldAddr); !isFA {
+				okOff = true // a variable of its own: allocated 64-bit aligned
+			}
+			n++
+			R.seen(FuncKey(fn))
+			R.decide(rule, fmt.Sprintf("%s:%s(%s)", FuncKey(fn), strings.TrimPrefix(name, "sync/atomic."), typeShort(v.Type())+path), "the 64-bit operand is at an offset that is a multiple of 8 under the 386 layout", okOff && off%8 == 0, fmt.Sprintf("offset %d", off), P.Pos(ci.Pos()))
+		}
+	}
+	R.decide(rule, "sites:count", "64-bit atomic operations were found (>= 1)", n >= 1, fmt.Sprintf("%d", n), "")
+}
+
+// pooledAndCopiedRule: see C20.n. Both parts have no instance on a tree that satisfies them; the count of
+// functions scanned is the coverage figure.
+func pooledAndCopiedRule(P *Program, R *Report, rule string) {
+	scanned := 0
+	var escapes, copies []string
+	for _, fn := range P.AllFuncs {
+		if fn.Blocks == nil || !inModuleFn(fn) {
+			continue
+		}
+		scanned++
+		returned := map[ssa.Value]bool{}
+		for _, r := range returnsOf(fn) {
+			for k := 0; k < retCount(r); k++ {
+				// the objects the result may be (aliases, not values computed from them)
+				var walk func(v ssa.Value, d int)
+				walk = func(v ssa.Value, d int) {
+					if v == nil || returned[v] || d > 8 {
+						return
+					}
+					returned[v] = true
+					switch x := v.(type) {
+					case *ssa.Phi:
+						for _, e := range x.Edges {
+							walk(e, d+1)
+						}
+					case *ssa.ChangeType:
+						walk(x.X, d+1)
+					case *ssa.MakeInterface:
+						walk(x.X, d+1)
+					case *ssa.TypeAssert:
+						walk(x.X, d+1)
+					case *ssa.Slice:
+						walk(x.X, d+1)
+					case *ssa.FieldAddr:
+						walk(x.X, d+1)
+					case *ssa.IndexAddr:
+						walk(x.X, d+1)
+					case *ssa.Extract:
+						walk(x.Tuple, d+1)
+					case *ssa.Call:
+						if m := bigMethod(x); m != "" && bigMutators[m] {
+							walk(callArgs(x)[0], d+1) // in-place methods return their receiver
+						}
+					}
+				}
+				walk(retValue(r, k), 0)
+			}
+		}
+		for _, ci := range callsIn(fn) {
+			if !calleeIs(ci, "(*sync.Pool).Put") || len(ci.Common().Args) < 2 {
+				continue
+			}
+			v := ci.Common().Args[1]
+			if mi, ok := v.(*ssa.MakeInterface); ok {
+				v = mi.X
+			}
+			if !returned[v] {
+				if ta, ok := v.(*ssa.TypeAssert); ok && returned[ta.X] {
+					v = ta.X
+				}
+			}
+			if returned[v] {
+				escapes = append(escapes, FuncKey(fn)+": "+typeShort(v.Type())+" put back at "+P.Pos(ci.Pos())+" is (part of) a result")
+			}
+		}
+		allInstrs(fn, func(i ssa.Instruction) {
+			if u, ok := i.(*ssa.UnOp); ok && u.Op == token.MUL && typeShort(u.Type()) == "common.CPRNG" {
+				copies = append(copies, FuncKey(fn)+": copy at "+P.Pos(u.Pos()))
+			}
+		})
+		if fn.Signature.Recv() != nil && typeShort(fn.Signature.Recv().Type()) == "common.CPRNG" {
+			copies = append(copies, FuncKey(fn)+": value receiver")
+		}
+	}
+	sort.Strings(escapes)
+	sort.Strings(copies)
+	R.decide(rule, "pool:no-escape", "no object that is put back into a sync.Pool is returned by the same function", len(escapes) == 0 && scanned >= 300, fmt.Sprintf("%d functions scanned\n%s", scanned, strings.Join(escapes, "\n")), "")
+	R.decide(rule, "cprng:never-copied", "the generator state common.CPRNG is not copied by value anywhere in the module", len(copies) == 0 && scanned >= 300, fmt.Sprintf("%d functions scanned\n%s", scanned, strings.Join(dedupStrings(copies), "\n")), "")
 }
